@@ -81,51 +81,123 @@ def nest(rng, d):
     return rng.choice(STMTS)
 
 
+def frag_body(rng, depth):
+    c = rng.randrange(5)
+    if c == 0 and depth < 6: return ('b', frag_tree(rng, depth + 1))
+    if c == 1: return ('a',)
+    return ('s',)
 def frag_tree(rng, depth=0):
     """a random statement list of the fragment of Model/Fragment.v:
-    ('s',) | ('a',) | ('b', body) | ('r', body) | ('t', body, fin)"""
+    ('s',) | ('a',) | ('b', body) | ('r', body) | ('t', body, fin) | ('x', body, exc) | ('i', tbody) | ('e', tbody, tbody) | ('w', tbody)
+    | ('c', [tbody...], None | else-body)
+    with tbody = ('s',) | ('a',) | ('b', body)"""
     out = []
     for _ in range(rng.randrange(0, 5 if depth < 4 else 2)):
-        c = rng.randrange(7)
+        c = rng.randrange(13)
         if c == 0 and depth < 6: out.append(('b', frag_tree(rng, depth + 1)))
         elif c == 1 and depth < 6: out.append(('r', frag_tree(rng, depth + 1)))
         elif c == 2 and depth < 6: out.append(('t', frag_tree(rng, depth + 1), frag_tree(rng, depth + 1)))
         elif c == 3: out.append(('a',))
+        elif c == 4: out.append(('i', frag_body(rng, depth)))
+        elif c == 5: out.append(('e', frag_body(rng, depth), frag_body(rng, depth)))
+        elif c == 6: out.append(('w', frag_body(rng, depth)))
+        elif c == 7 and depth < 6: out.append(('x', frag_tree(rng, depth + 1), frag_tree(rng, depth + 1)))
+        elif c == 8 and depth < 6: out.append(('c', [frag_body(rng, depth + 1) for _ in range(rng.randrange(0, 4))], None if rng.randrange(2) else frag_tree(rng, depth + 1)))
         else: out.append(('s',))
     return out
+def frag_body_text(b, rng, ind):
+    sp = lambda: rng.choice(["\n", " "])
+    if b[0] == 's': return rng.choice(["Foo", "x", "Bar1"])
+    if b[0] == 'a': return "x" + rng.choice([" := ", ":="]) + "y"
+    return "begin" + sp() + frag_text(b[1], rng, ind + 1) + sp() + "end"
 def frag_text(tree, rng, ind=1):
     parts = []
+    sp = lambda: rng.choice(["\n", " "])
     for t in tree:
         pad = rng.choice(["  " * ind, "", " "])
         if t[0] == 's': parts.append(pad + rng.choice(["Foo", "x", "Bar1"]) + rng.choice([";", " ;"]))
         elif t[0] == 'a': parts.append(pad + "x" + rng.choice([" := ", ":="]) + "y;")
-        elif t[0] == 'b': parts.append(pad + "begin" + rng.choice(["\n", " "]) + frag_text(t[1], rng, ind + 1) + rng.choice(["\n", " "]) + pad + "end;")
-        elif t[0] == 'r': parts.append(pad + "repeat" + rng.choice(["\n", " "]) + frag_text(t[1], rng, ind + 1) + rng.choice(["\n", " "]) + pad + "until Done;")
-        else: parts.append(pad + "try" + rng.choice(["\n", " "]) + frag_text(t[1], rng, ind + 1) + rng.choice(["\n", " "]) + pad + "finally" + rng.choice(["\n", " "])
-                           + frag_text(t[2], rng, ind + 1) + rng.choice(["\n", " "]) + pad + "end;")
+        elif t[0] == 'b': parts.append(pad + "begin" + sp() + frag_text(t[1], rng, ind + 1) + sp() + pad + "end;")
+        elif t[0] == 'r': parts.append(pad + "repeat" + sp() + frag_text(t[1], rng, ind + 1) + sp() + pad + "until Done;")
+        elif t[0] in ('t', 'x'): parts.append(pad + "try" + sp() + frag_text(t[1], rng, ind + 1) + sp() + pad + ("finally" if t[0] == 't' else "except") + sp()
+                           + frag_text(t[2], rng, ind + 1) + sp() + pad + "end;")
+        elif t[0] == 'i': parts.append(pad + "if Cond then" + sp() + frag_body_text(t[1], rng, ind) + rng.choice([";", " ;"]))
+        elif t[0] == 'e': parts.append(pad + "if Cond then" + sp() + frag_body_text(t[1], rng, ind) + sp() + "else" + sp()
+                           + frag_body_text(t[2], rng, ind) + ";")
+        elif t[0] == 'c':
+            txt = pad + "case Sel of" + sp()
+            for b in t[1]: txt += pad + rng.choice(["A", "B1"]) + rng.choice([":", " :", ": "]) + sp() + frag_body_text(b, rng, ind + 1) + ";" + sp()
+            if t[2] is not None: txt += pad + "else" + sp() + frag_text(t[2], rng, ind + 1) + sp()
+            parts.append(txt + pad + "end;")
+        else: parts.append(pad + "while Cond do" + sp() + frag_body_text(t[1], rng, ind) + ";")
     return rng.choice(["\n", " ", "\n\n"]).join(parts)
-def frag_expected(tree, d, k):
-    """the expected lines (level, tokens) and the next token index — a transcription of Fragment.expected"""
-    out = []
+def frag_expected(tree, d, k, out, par=None):
+    """appends the expected lines (level, parent, tokens) of parse_file to out and returns the next token
+    index — written directly for the final lines (no empty lines, parents as final line indices)"""
+    lv = lambda x: min(x, 65535)
+    def body(b, p, k, semi):
+        # the child lines of a body; semi: index of the `;` that goes to the last line, or None
+        sm = [semi] if semi is not None else []
+        if b[0] == 's': out.append((1, p, [k] + sm)); return k + 1
+        if b[0] == 'a': out.append((1, p, [k, k + 1, k + 2] + sm)); return k + 3
+        out.append((1, p, [k])); k = frag_expected(b[1], 2, k + 1, out, p)
+        out.append((1, p, [k] + sm)); return k + 1
+    def body_len(b):
+        return 1 if b[0] == 's' else 3 if b[0] == 'a' else 2 + frag_len(b[1])
     for t in tree:
-        if t[0] == 's': out.append((min(d, 65535), [k, k + 1])); k += 2
-        elif t[0] == 'a': out.append((min(d, 65535), [k, k + 1, k + 2, k + 3])); k += 4
+        if t[0] == 's': out.append((lv(d), par, [k, k + 1])); k += 2
+        elif t[0] == 'a': out.append((lv(d), par, [k, k + 1, k + 2, k + 3])); k += 4
         elif t[0] == 'b':
-            out.append((min(d, 65535), [k])); sub, k = frag_expected(t[1], d + 1, k + 1); out += sub
-            out.append((min(d, 65535), [k, k + 1])); k += 2
+            out.append((lv(d), par, [k])); k = frag_expected(t[1], d + 1, k + 1, out, par)
+            out.append((lv(d), par, [k, k + 1])); k += 2
         elif t[0] == 'r':
-            out.append((min(d, 65535), [k])); sub, k = frag_expected(t[1], d + 1, k + 1); out += sub
-            out.append((min(d, 65535), [k, k + 1, k + 2])); k += 3
+            out.append((lv(d), par, [k])); k = frag_expected(t[1], d + 1, k + 1, out, par)
+            out.append((lv(d), par, [k, k + 1, k + 2])); k += 3
+        elif t[0] in ('t', 'x'):
+            out.append((lv(d), par, [k])); k = frag_expected(t[1], d + 1, k + 1, out, par)
+            out.append((lv(d), par, [k])); k = frag_expected(t[2], d + 1, k + 1, out, par)
+            out.append((lv(d), par, [k, k + 1])); k += 2
+        elif t[0] in ('i', 'w'):
+            h = len(out); e = k + 3 + body_len(t[1])
+            out.append((lv(d), par, [k, k + 1, k + 2])); body(t[1], (h, k + 2), k + 3, e); k = e + 1
+        elif t[0] == 'c':
+            # the child lines of an arm come after the line that follows the arm line
+            out.append((lv(d), par, [k, k + 1, k + 2])); k += 3; pending = None
+            for b in t[1]:
+                idx = len(out); out.append((lv(d + 1), par, [k, k + 1]))
+                if pending: body(*pending)
+                e = k + 2 + body_len(b); pending = (b, (idx, k + 1), k + 2, e); k = e + 1
+            if t[2] is None:
+                out.append((lv(d), par, [k, k + 1]))
+                if pending: body(*pending)
+                k += 2
+            else:
+                out.append((lv(d), par, [k]))
+                if pending: body(*pending)
+                k = frag_expected(t[2], d + 1, k + 1, out, par)
+                out.append((lv(d), par, [k, k + 1])); k += 2
         else:
-            out.append((min(d, 65535), [k])); sub, k = frag_expected(t[1], d + 1, k + 1); out += sub
-            out.append((min(d, 65535), [k])); sub, k = frag_expected(t[2], d + 1, k + 1); out += sub
-            out.append((min(d, 65535), [k, k + 1])); k += 2
-    return out, k
+            h = len(out); el = k + 3 + body_len(t[1]); e = el + 1 + body_len(t[2])
+            out.append((lv(d), par, [k, k + 1, k + 2, el])); body(t[1], (h, k + 2), k + 3, None); body(t[2], (h, el), el + 1, e); k = e + 1
+    return k
+def frag_len(tree):
+    n = 0
+    for t in tree:
+        bl = lambda b: 1 if b[0] == 's' else 3 if b[0] == 'a' else 2 + frag_len(b[1])
+        n += {'s': 2, 'a': 4}.get(t[0], 0)
+        if t[0] == 'b': n += 3 + frag_len(t[1])
+        elif t[0] == 'r': n += 4 + frag_len(t[1])
+        elif t[0] in ('t', 'x'): n += 4 + frag_len(t[1]) + frag_len(t[2])
+        elif t[0] in ('i', 'w'): n += 4 + bl(t[1])
+        elif t[0] == 'e': n += 5 + bl(t[1]) + bl(t[2])
+        elif t[0] == 'c': n += 5 + sum(3 + bl(b) for b in t[1]) + (0 if t[2] is None else 1 + frag_len(t[2]))
+    return n
 def frag_program(rng):
     tree = frag_tree(rng)
     text = "begin" + rng.choice(["\n", " "]) + frag_text(tree, rng) + rng.choice(["\n", " "]) + "end."
-    body, k = frag_expected(tree, 1, 1)
-    return text, [(0, [0])] + body + [(0, [k, k + 1]), (0, [k + 2])]
+    out = [(0, None, [0])]
+    k = frag_expected(tree, 1, 1, out)
+    return text, out + [(0, None, [k, k + 1]), (0, None, [k + 2])]
 
 def gen_set(name, n, rng):
     texts = [s["text"] for s in gen.seeds()]
